@@ -1125,6 +1125,12 @@ xc_get_page(struct page_io *pio)
 	if (idx == IDX_NONE)
 		return set_error(ctx, KDUMP_ERR_NODATA, "Page not found");
 
+	if (edp->xen_pages_offset < 0 ||
+	    idx > (((uint64_t)INT64_MAX - edp->xen_pages_offset)
+		   >> get_page_shift(ctx)))
+		return set_error(ctx, KDUMP_ERR_CORRUPT,
+				 "Page offset out of range");
+
 	offset = edp->xen_pages_offset + ((off_t)idx << get_page_shift(ctx));
 
 	mutex_lock(&ctx->shared->cache_lock);
